@@ -19,7 +19,9 @@ def impl_one(g, lab):
     topo = U.topo_indices(G, lab)
     try:
         cp = dag_to_cpdag(G)
-        return {"res": U.mixed_canon(cp, lab), "topo": topo, "type": type(cp).__name__}
+        from pywhy_graphs import CPDAG
+        return {"res": U.mixed_canon(cp, lab), "topo": topo,
+                "type": "CPDAG" if isinstance(cp, CPDAG) else type(cp).__name__}
     except Exception as e:
         return {"res": "err:" + type(e).__name__, "topo": topo}
 
